@@ -374,6 +374,23 @@ fn gen_delegation_method<'s>(
     let inner = quote! {
         <Self as ::#core::convert::AsRef<#impl_t>>::as_ref(#self_token)
     };
+    // Type and const parameters of the method are passed on explicitly:
+    // nothing says they can be inferred from the arguments.
+    let generic_arguments: Vec<_> = fn_sig
+        .generics
+        .params
+        .iter()
+        .filter_map(|param| match param {
+            syn::GenericParam::Type(type_param) => Some(&type_param.ident),
+            syn::GenericParam::Const(const_param) => Some(&const_param.ident),
+            syn::GenericParam::Lifetime(_) => None,
+        })
+        .collect();
+    let turbofish = if generic_arguments.is_empty() {
+        None
+    } else {
+        Some(quote! { ::<#(#generic_arguments),*> })
+    };
 
     match (&attr.impl_trait, &attr.delegation_kind) {
         (Some(ImplTrait(_, impl_trait_ident)), Some(SpanOpt(Delegate::ByTrait(_), _))) => {
@@ -381,8 +398,7 @@ fn gen_delegation_method<'s>(
                 trait_fn,
                 sig: fn_sig.clone(),
                 call: quote! {
-                    // TODO: pass additional generic arguments(?)
-                    <#impl_t::Target as #impl_trait_ident<#impl_t>>::#fn_ident(#self_token, #(#arguments),*)
+                    <#impl_t::Target as #impl_trait_ident<#impl_t>>::#fn_ident #turbofish(#self_token, #(#arguments),*)
                 },
             }
         }
@@ -447,11 +463,11 @@ fn gen_delegation_method<'s>(
                 call: if takes_self_by_value {
                     // a `self` method consumes the inner value as well
                     quote! {
-                        #self_token.into_inner().#fn_ident(#(#arguments),*)
+                        #self_token.into_inner().#fn_ident #turbofish(#(#arguments),*)
                     }
                 } else {
                     quote! {
-                        #inner.#fn_ident(#(#arguments),*)
+                        #inner.#fn_ident #turbofish(#(#arguments),*)
                     }
                 },
             }
